@@ -922,8 +922,82 @@ def history_case(ctx, impl, logic, c, specs, ops, label="history"):
                         return
 
 
+def history_trace_case(ctx, impl, c, mops, lines, pending):
+    """The same kind of history at the granularity of the Lean model (`runOps` / `vcsTrace`): on ONE real object do
+    `obj.pre = [p]` / `obj.compute_wp(q)` / `get_vcs` / `print_com` in the given order -- including orders the
+    documented protocol does not use (compute_wp without setting pre again, pre set after the analysis) -- and record
+    what get_vcs returns after every operation."""
+    vs = set(vars_of(c, set()))
+    for o in mops:
+        if len(o) > 1:
+            vs |= vars_of(o[1], set())
+    ctxt = {v: "int" for v in sorted(vs)}
+    try:
+        with time_limit(60):
+            cr = impl.to_real_com(c)
+            obs = []
+            for o in mops:
+                if o[0] == "setpre":
+                    cr.pre = [impl.to_real(o[1])]
+                elif o[0] == "wp":
+                    cr.compute_wp(impl.to_real(o[1]))
+                elif o[0] == "vcs":
+                    cr.get_vcs(ctxt)
+                else:
+                    cr.print_com(ctxt)
+                obs.append(list(cr.get_vcs(ctxt)))
+    except Timeout:
+        raise
+    except Exception as e:  # noqa  (raises are reported by history_case / the fresh-object streams)
+        ctx.count("history-trace:impl-raise:" + classify_exc(e))
+        return
+    key = sexp.dumps(["hist", s_com(c), [[o[0]] + ([s_expr(o[1])] if len(o) > 1 else []) for o in mops]])
+    ctx.case(("history-trace", key), nontrivial=len([o for o in mops if o[0] == "wp"]) >= 2)
+    ctx.count("history-trace:%d-wp" % min(3, len([o for o in mops if o[0] == "wp"])))
+    lines.append(key)
+    pending.append({"key": key, "obs": obs})
+
+
+def history_trace_compare(ctx, lines, pending):
+    out = ctx.lean_driver(EXE, lines) if lines else []
+    if out is None or len(out) != len(lines):
+        ctx.broken("correspondence:c20:driver", "model driver unavailable (history trace stream)")
+        return
+    ndis = 0
+    for line, rec in zip(out, pending):
+        if line == "bad-op":
+            ctx.broken("correspondence:c20:history-trace", "model rejects %s" % rec["key"][:300])
+            continue
+        m = [sorted(sexp.dec(t) for t in step) for step in sexp.loads(line)]
+        i_ = [sorted(step) for step in rec["obs"]]
+        if m != i_:
+            ndis += 1
+            if ndis <= 3:
+                k = next((j for j in range(min(len(m), len(i_))) if m[j] != i_[j]), -1)
+                ctx.broken("correspondence:c20:history-trace", "get_vcs after operation %d of the history %s: impl=%s model=%s" % (
+                    k, rec["key"][:400], i_[k] if k >= 0 else i_, m[k] if k >= 0 else m))
+                ctx.coverage["disagreements_checked"] += 1
+    ctx.count("history-trace:compared", len(lines))
+
+
+def model_ops(rng, specs, ops):
+    """ops of history_case -> operations of the model; an analysis is `pre = [p]; compute_wp(q)` (70%), compute_wp alone
+    (20%: pre keeps what the earlier analyses left there) or compute_wp followed by `pre = [p]` (10%)."""
+    mops = []
+    for op, k in ops:
+        if op != "analyse":
+            mops.append(("print",) if op == "print" else ("vcs",))
+            continue
+        p, q = specs[k]
+        r = rng.random()
+        mops += [("setpre", p), ("wp", q)] if r < 0.7 else [("wp", q)] if r < 0.9 else [("wp", q), ("setpre", p)]
+    return mops
+
+
 def history_stage(ctx, impl, logic):
     rng = ctx.rng("history")
+    rng_t = ctx.rng("history-trace")
+    t_lines, t_pending = [], []
     V, I = (lambda x: ("var", x)), (lambda k: ("int", k))
     B = lambda o, a, b: ("bin", o, a, b)
     loop = ("while", B("lt", I(0), V("a")), B("le", I(0), V("a")), ("assign", "a", B("sub", V("a"), I(2))))
@@ -934,6 +1008,11 @@ def history_stage(ctx, impl, logic):
              (inc, [(B("le", I(0), V("a")), B("le", I(1), V("a"))), (TRUE, B("le", I(2), V("a")))], [("vcs", 0), ("analyse", 1), ("print", 1), ("analyse", 0)])]
     for c, specs, ops in fixed:
         history_case(ctx, impl, logic, c, specs, ops)
+        history_trace_case(ctx, impl, c, model_ops(rng_t, specs, ops), t_lines, t_pending)
+    # the witnesses of history_set_pre_after_wp_counterexample and history_reanalysis_incomplete, on the real code
+    history_trace_case(ctx, impl, ("skip",), [("wp", B("eq", V("a"), I(0))), ("setpre", TRUE), ("vcs",)], t_lines, t_pending)
+    history_trace_case(ctx, impl, ("seq", ("skip",), inc), [("setpre", B("eq", V("a"), I(1))), ("wp", B("eq", V("a"), I(1))),
+                                                           ("setpre", B("eq", V("a"), I(1))), ("wp", B("eq", V("a"), I(2)))], t_lines, t_pending)
     for _ in range(ctx.scale(150, 2500)):
         vs = VARS[:rng.choice([1, 2, 2, 3])]
         c = gen_com(rng, rng.randint(0, 3), vs, loops=rng.random() < 0.5, inv=None)
@@ -946,6 +1025,8 @@ def history_stage(ctx, impl, logic):
             if rng.random() < 0.35:
                 ops.append((rng.choice(["print", "vcs", "lines"]), rng.choice([0, 1])))
         history_case(ctx, impl, logic, c, specs, ops)
+        history_trace_case(ctx, impl, c, model_ops(rng_t, specs, ops), t_lines, t_pending)
+    history_trace_compare(ctx, t_lines, t_pending)
 
 
 def vcs_stage(ctx, impl, logic):
@@ -2061,6 +2142,67 @@ def vcghol_case(ctx, H, pre, c, post, label, lines, pending):
     ctx.count("vcghol:nonvacuous")
 
 
+def gen_rule_near_miss(rng, vs):
+    """Triples that are true or false because of exactly ONE premise of a Hoare rule.  The precondition pins
+    an initial state st0; the postcondition records what some run OTHER than the real one would produce:
+    the branch of a conditional that is NOT taken from st0, a loop body run once more or once less, the
+    second command of a sequence alone.  A sound generator must leave a condition that fails at st0 (or the
+    guess happens to be right for the real run too: then the triple is true); a rule that lost a guard, a
+    premise or the order of its parts lets such a triple through, and oracle (a) sees the run from st0."""
+    V, I = (lambda x: ("var", x)), (lambda k: ("int", k))
+    B = lambda o, a, b: ("bin", o, a, b)
+    st0 = {v: rng.randint(0, 2) for v in vs}
+    pre = None
+    for v in vs:
+        eqn = B("eq", V(v), I(st0[v]))
+        pre = eqn if pre is None else B("and", eqn, pre)
+
+    def simple():
+        r = rng.random()
+        if r < 0.3:
+            return ("skip",)
+        a = ("assign", rng.choice(vs), gen_nat_arith(rng, 1, vs))
+        return a if r < 0.8 else ("seq", a, ("assign", rng.choice(vs), gen_nat_arith(rng, 1, vs)))
+
+    def facts(fin):
+        eqs = [B("eq", V(v), I(fin.get(v, 0))) for v in vs]
+        rng.shuffle(eqs)
+        post = eqs[0]
+        for e in eqs[1:rng.randint(1, len(eqs))]:
+            post = B("and", e, post)
+        return post
+    kind = rng.choice(["cond", "cond", "cond", "seq", "while"])
+    try:
+        if kind == "cond":
+            b = gen_hcond(rng, rng.randint(0, 1), vs)
+            c1, c2 = simple(), simple()
+            if c1 == c2:
+                c2 = ("assign", vs[0], B("add", V(vs[0]), I(1)))
+            other = c2 if ev(b, st0) is True else c1
+            c = ("cond", b, c1, c2)
+            post = facts(run_ref(other, dict(st0), [200]))
+            if rng.random() < 0.3:
+                c = ("seq", ("skip",), c) if rng.random() < 0.5 else ("seq", c, ("skip",))
+        elif kind == "seq":
+            c1, c2 = simple(), simple()
+            c = ("seq", c1, c2)
+            post = facts(run_ref(rng.choice([c2, c1, ("seq", c2, c1)]), dict(st0), [200]))
+        else:
+            i = vs[0]
+            bound = st0[i] + rng.randint(0, 2)
+            others = [v for v in vs if v != i] or vs
+            body = ("seq", ("assign", rng.choice(others), gen_nat_arith(rng, 1, vs)), ("assign", i, B("add", V(i), I(1))))
+            c = ("while", B("ne", V(i), I(bound)), TRUE, body)
+            k = max(0, bound - st0[i] + rng.choice([-1, 0, 1]))
+            fin = dict(st0)
+            for _ in range(k):
+                fin = run_ref(body, fin, [200])
+            post = facts(fin)
+    except (OutOfFuel, Stuck):
+        return None
+    return pre, c, post
+
+
 def vcghol_stage(ctx):
     H = HolBuilder()
     rng = ctx.rng("vcghol")
@@ -2077,6 +2219,12 @@ def vcghol_stage(ctx):
              (TRUE, ("seq", ("assign", "a", I(1)), ("cond", B("lt", V("a"), I(1)), ("assign", "b", I(0)), ("assign", "b", I(1)))), B("eq", V("b"), I(1)))]
     for pre, c, post in fixed:
         vcghol_case(ctx, H, pre, c, post, "checked", lines, pending)
+    # one-premise near misses of every rule (wrong branch / wrong iteration count / wrong order), state pinned
+    for i in range(ctx.scale(30, 300)):
+        t = gen_rule_near_miss(rng, ["a", "b", "c"][:rng.choice([1, 2, 2, 3])])
+        if t is not None:
+            ctx.count("vcghol:near-miss:" + t[1][0])
+            vcghol_case(ctx, H, t[0], t[1], t[2], "checked" if i % 10 == 0 else "random", lines, pending)
     import time
     t0, budget = time.time(), ctx.scale(50, 400)
     for i in range(n):
@@ -2462,11 +2610,22 @@ MANIFEST = {
             "every state; for every wfC condition), parse_produces_wfC, reparse_of_parsed (every condition the grammar returns is wfC), com_parse_print + com_parse_print_exec (for every program print_com can express -- "
             "printableCom, decidable -- parsing the printed text gives the program back and it executes identically), "
             "seq_after_cond_counterexample (the known finding, proved: a conditional followed by `;` is read back as a different program), "
+            "ONE object analysed more than once (Com.pre / Com.post are mutable; compute_wp appends to pre, resets post, prepends I & b to a loop body's pre, "
+            "returns pre[0]) -- modelled as ACom.init / setPre / reWp / runOps over the operations obj.pre = [p], compute_wp(q), get_vcs, print_com: "
+            "history_vcs_sound_ret + history_vcs_sound (after ANY history in which only reads follow the last compute_wp(q), whatever the earlier "
+            "analyses left in the lists: all conditions of get_vcs valid ==> every terminating execution from pre[0] -- the p of the last obj.pre = [p] -- "
+            "ends in q), history_fresh (a fresh object analysed once is the vcs_sound case), history_reanalysis_incomplete (proved on a witness: below the top "
+            "node nothing is forgotten, a second analysis keeps asking old-wp --> new-wp, so it can return an invalid condition for a true triple: "
+            "sound, not complete), history_set_pre_after_wp_counterexample (proved: pre assigned AFTER the last compute_wp discards the top-level "
+            "condition -- the reason for the order hypothesis; an order no caller in the repository uses, not counted as a defect). "
             "vcs_in_language + vcs_shown_sem (every VC of a program of the "
             "assertion language is again in it, hence every VC string shown parses back to a condition with the value of the VC computed). "
             "NOT proved: anything about arrays, fields, "
             "forall (convert_hol does not exist for them and get_vcs raises: out of scope); termination. "
             "COMPARED per run, model against code, observable results only: VC strings and VC HOL terms of get_lines/get_vcs (multisets), "
+            "the printed VC list of get_vcs after EVERY operation of a history on one real object against the model's vcsTrace (history-trace stream: the "
+            "histories of the history stream at the granularity pre = [p] / compute_wp / get_vcs / print_com, 20% of the analyses without resetting pre, 10% "
+            "with pre set after compute_wp, plus the witnesses of the two history theorems above), "
             "assumptions of imp.vcg_norm's theorem on triples built as HOL terms (multiset), Op.__str__, print_com text, cond_parser / com_parser "
             "results (valid and token-perturbed strings), token lists of the model lexer and of Lark's lexer on every printed string and on "
             "character-perturbed strings, expression values, interpreter results, eval_Sem final states and the sequence of Sem_* theorems in its proof term (pre-order) against the model's "
@@ -2474,7 +2633,7 @@ MANIFEST = {
             "nameOK, wsCom, okCom, okE, lexOKc are evaluated by the driver on every generated condition, VC, name, program and cond_parser result. "
             "JUDGED on the implementation's own outputs by the harness' reference evaluator / interpreter on concrete states: (a) VC HOL terms all "
             "true on -3..3 and on every visited state ==> executions from every grid state satisfying the precondition end in the postcondition "
-            "(get_vcs; likewise 0..3 for imp.vcg_norm); (b) each shown VC string re-parsed by the real parser has the value of its HOL term; "
+            "(get_vcs; likewise 0..3 for imp.vcg_norm, whose stream includes one-premise near misses of every Hoare rule: the state pinned by the precondition and the postcondition recording the branch NOT taken / one iteration more or less / the parts in another order); (b) each shown VC string re-parsed by the real parser has the value of its HOL term; "
             "generated conditions printed, re-parsed and converted by convert_hol keep their value; expr.neg/conj/implies/... return conditions "
             "with the value of the logical combination; (a') the same on ONE Com object used more than once (histories: print_com / get_lines / get_vcs before the first analysis, two or "
             "three analyses with the same or different specifications, different `vars` contexts, printing in between): the VCs returned for each "
@@ -2488,8 +2647,10 @@ MANIFEST = {
             "modelled, it only matters for keywords used as identifiers, which nameOK excludes); the holpy kernel and Z3 for the theorems "
             "eval_Sem / vcg_solve return. Not modelled: arrays / fields / forall, functions of arity > 2, >=, >, <-->, false in the printed "
             "language (no concrete syntax in parser2; never produced by compute_wp). The mutable analysis state of imperative/ is Com.pre / Com.post (and what get_lines derives from "
-            "them): exercised by the history stream on re-used objects; the Lean model describes the analysis of a fresh object only (on the "
-            "pinned tree a re-analysis appends further conditions to the chains: judged semantically, not modelled). "
+            "them): modelled (per-node pre/post lists, reWp) and proved sound for every history ending in compute_wp + reads; compared step by step with the real "
+            "object (VC strings) and judged semantically by the history stream. Not modelled for an ANALYSED object: the full text of print_com / get_lines "
+            "(VC lines interleaved with program lines; only its VC lines and the fact that printing changes nothing are compared), `vars` contexts, mutation "
+            "of fields other than pre (b, inv, c1 ...), pre set to a list of length != 1. "
             "Known finding: print_com cannot express a sequence whose "
             "first part ends in a conditional. Parts of imperative/ and its callers touched by NO theorem and NO stream: the Lark grammar "
             "of imperative/parser.py itself (parser1; its results are used by the eval_Sem / vcg_solve streams, whose generator only emits the "
